@@ -174,6 +174,23 @@ def synth_library(rng, idx):
     for s in structs:
         for f in rng.sample(STRUCT_FUNCS, rng.randint(1, 4)):
             lines.append("- decl: " + f.format(S=s, u=u))
+    if rng.random() < 0.4:
+        # types wrapped elsewhere and imported through a typemap section, each with its own header(s)
+        feats.append("typemap")
+        names = rng.sample(["Vec3", "Quat", "Mat4", "Tensor", "Frame", "Abox"], rng.randint(2, 5))
+        tm = ["typemap:"]
+        for n in names:
+            same = rng.random() < 0.7
+            tm += ["- type: %s" % n, "  fields:", "    base: struct", "    c_header: %s.h" % n.lower(),
+                   "    cxx_header: %s" % (n.lower() + (".h" if same else ".hpp")), "    c_type: %s" % n,
+                   "    f_derived_type: %s" % n.lower(), "    f_module_name: %s_mod" % n.lower()]
+        at = lines.index("declarations:")
+        lines[at:at] = tm
+        for k in range(rng.randint(1, 3)):
+            a, b = rng.choice(names), rng.choice(names)
+            lines.append("- decl: void usetm%d%s(%s *a, const %s *b)" % (k, u, a, b))
+        if len(names) > 2:
+            lines.append("- decl: void usetmall%s(%s)" % (u, ", ".join("%s *p%d" % (n, i) for i, n in enumerate(names))))
     if "error_pattern" in feats:
         lines += ["patterns:", "  C_check_a: |", "    if ({cxx_var} == nullptr) {{",
                   "        return nullptr; // check a of %s" % lib, "    }}",
